@@ -369,6 +369,50 @@ def check_datagroup_histories(run, tree):
             second == {"position": "position-2", "mass": "mass-2", "velocity": "velocity-1", "dx": "dx-1"} and aux_of(l1) == first
         return ok, "first layer carries %s; after replacing position and mass the next layer carries %s" % (first, second)
 
+    @hist("a member of another RANK is rejected even when its leading dimensions match (and a 0-d member in a non-scalar group)",
+          "group of (5,) members accepts a (5, 3) or 0-d member / group of (4, 3) members accepts a (4,) member: shapes compared only along the common dimensions")
+    def h18(g, do):
+        do("set", "a", A("a", 5))
+        before = group_state(tree, hooks, g)
+        r1 = do("set", "b", ArrTok("b", "u", (5, 3)), expect_raise="ValueError")
+        r2 = do("set", "c", ArrTok("c", "u", (5, 1)), expect_raise="ValueError")
+        r3 = do("set", "d", ArrTok("d", "u", ()), expect_raise="ValueError")
+        g2 = new_group(tree, hooks)
+        call_method(tree, hooks, g2, "__setitem__", "a", ArrTok("a", "u", (4, 3)))
+        try:
+            call_method(tree, hooks, g2, "__setitem__", "b", ArrTok("b", "u", (4,)))
+            r4 = False
+        except Raised as e:
+            r4 = e.name == "ValueError"
+        return r1 and r2 and r3 and r4 and group_state(tree, hooks, g) == before, "(5,3) into (5,): %s; (5,1) into (5,): %s; 0-d into (5,): %s; (4,) into (4,3): %s" % tuple(
+            "rejected" if r else "ACCEPTED" for r in (r1, r2, r3, r4))
+
+    @hist("removing a key that is absent raises KeyError (pop and del), like a dict, and changes nothing",
+          "group.pop('missing') returns None / del group['missing'] passes silently: a mistyped key goes unnoticed")
+    def h19(g, do):
+        do("set", "a", A("a", 3))
+        before = group_state(tree, hooks, g)
+        r1 = do("pop", "zz", expect_raise="KeyError")
+        r2 = do("del", "zz", expect_raise="KeyError")
+        do("pop", "a")
+        r3 = do("pop", "a", expect_raise="KeyError")
+        r4 = do("del", "a", expect_raise="KeyError")
+        return r1 and r2 and r3 and r4, "pop(absent): %s; del absent: %s; pop twice: %s; del after pop: %s" % tuple("KeyError" if r else "NO ERROR" for r in (r1, r2, r3, r4))
+
+    @hist("keys() / items() / values() handed out earlier keep following the group (dict views), also across clear()",
+          "k = group.keys(); group.clear(); group['c'] = x; list(k) is empty or still shows the old keys (clear() swaps the backing dict)")
+    def h20(g, do):
+        do("set", "a", A("a", 3))
+        k, it, vs = (call_method(tree, hooks, g, m) for m in ("keys", "items", "values"))
+        if not all(hasattr(x, "__iter__") and not isinstance(x, (list, tuple)) for x in (k, it, vs)):
+            return True, "keys()/items()/values() return snapshots (no view contract to keep)"
+        do("clear")
+        do("set", "c", A("c", 5))
+        do("set", "d", A("d", 5))
+        do("del", "d")
+        got = (list(k), [kk for kk, _ in it], [getattr(v, "origin", None) for v in vs])
+        return got == (["c"], ["c"], ["c"]), "views taken before clear() show keys %s, items %s, values %s (required c)" % got
+
     def construct_group(*args, **kwargs):
         ev = _ev(tree, hooks, DG_Q + ".__init__")
         try:
@@ -560,11 +604,17 @@ def check_group_equality(run, tree):
             run.unresolved(construct, fi.where(), "cannot fold: %s" % e)
 
 
-def make_group(tree, hooks, with_vector=True, shape=(4,)):
+# group compositions the indexing / sorting folds run over: behaviour must not depend on HOW MANY members a group has
+COMPOSITIONS = (("a", "b", "v"), ("a",), ("v",), ("b", "v"))
+
+
+def make_group(tree, hooks, with_vector=True, shape=(4,), members=("a", "b", "v")):
     g = new_group(tree, hooks)
-    call_method(tree, hooks, g, "__setitem__", "a", ArrTok("a", "m", shape))
-    call_method(tree, hooks, g, "__setitem__", "b", ArrTok("b", "s", shape))
-    if with_vector:
+    if "a" in members:
+        call_method(tree, hooks, g, "__setitem__", "a", ArrTok("a", "m", shape))
+    if "b" in members:
+        call_method(tree, hooks, g, "__setitem__", "b", ArrTok("b", "s", shape))
+    if with_vector and "v" in members:
         v, _ = make_vector(tree, {c: "v." + c for c in "xyz"}, unit="cm", shape=shape, hooks=hooks)
         call_method(tree, hooks, g, "__setitem__", "v", v)
     return g
@@ -597,18 +647,18 @@ def check_group_indexing(run, tree):
                  ("integer index array", RawTok("perm", (4,)), "perm"),
                  # members with several values per row ((3, 4) grids): a full boolean mask selects ELEMENTS of every member alike
                  ("N-d boolean mask on N-d members", RawTok("mask2d", (3, 4), _bool_dtype()), "mask2d")]
-    for label, idx, key in idx_cases:
-        construct = "%s.__getitem__[%s]" % (DG_Q, label)
+    for label, idx, key, comp in [c + (m,) for c in idx_cases for m in COMPOSITIONS]:
+        construct = "%s.__getitem__[%s]" % (DG_Q, label) + ("" if comp == COMPOSITIONS[0] else "[members %s]" % ",".join(comp))
         try:
-            g = make_group(tree, hooks, shape=(3, 4) if label.startswith("N-d") else (4,))
+            g = make_group(tree, hooks, shape=(3, 4) if label.startswith("N-d") else (4,), members=comp)
             res = call_method(tree, hooks, g, "__getitem__", idx)
             if not (isinstance(res, PyObj) and res._cls.qual == DG_Q):
                 run.violated(construct, "src/osyris/core/datagroup.py", "returns %r" % (res,), "group[%s]" % label)
                 continue
             cont = res._attrs["_container"]
             problems = []
-            if list(cont) != ["a", "b", "v"]:
-                problems.append("members %s (required a, b, v)" % list(cont))
+            if list(cont) != list(comp):
+                problems.append("members %s (required %s)" % (list(cont), ", ".join(comp)))
             for k, m in cont.items():
                 src = {"a": "a", "b": "b"}.get(k)
                 if k == "v":
@@ -658,15 +708,21 @@ def check_group_indexing(run, tree):
             except ERR as e:
                 run.unresolved(construct, "src/osyris/core/datagroup.py", "cannot fold: %s" % e)
     # sortby
-    for label, key, want_key in (("by member name", "b", ("argsort", "b")), ("by index list", RawTok("perm", (4,)), "perm")):
-        construct = "%s.sortby[%s]" % (DG_Q, label)
+    sort_cases = []
+    for comp in COMPOSITIONS:
+        byname = next((k for k in ("b", "a") if k in comp), None)
+        if byname:
+            sort_cases.append(("by member name", byname, ("argsort", byname), comp))
+        sort_cases.append(("by index list", RawTok("perm", (4,)), "perm", comp))
+    for label, key, want_key, comp in sort_cases:
+        construct = "%s.sortby[%s]" % (DG_Q, label) + ("" if comp == COMPOSITIONS[0] else "[members %s]" % ",".join(comp))
         try:
-            g = make_group(tree, hooks)
+            g = make_group(tree, hooks, members=comp)
             ids_before = {k: id(v) for k, v in g._attrs["_container"].items()}
             call_method(tree, hooks, g, "sortby", key)
             cont = g._attrs["_container"]
             problems = []
-            if list(cont) != ["a", "b", "v"]:
+            if list(cont) != list(comp):
                 problems.append("members %s" % list(cont))
             for k, m in cont.items():
                 got = member_origin(tree, hooks, m)
@@ -827,6 +883,33 @@ def check_dataset_histories(run, tree):
         c = call_method(tree, hooks, ds, "copy")
         return c is not ds and c._attrs["groups"].get("a") is g and c._attrs["meta"] == {"time": 1} and c._attrs["meta"] is not ds._attrs["meta"], \
             "groups shared=%s meta copied=%s" % (c._attrs["groups"].get("a") is g, c._attrs["meta"] is not ds._attrs["meta"])
+
+    @case("removing a group that is absent raises KeyError (pop and del)", "ds.pop('missing') returns None / del ds['missing'] passes silently")
+    def c7():
+        ds = new_ds()
+        call_method(tree, hooks, ds, "__setitem__", "a", new_group(tree, hooks))
+        res = []
+        for meth in ("pop", "__delitem__"):
+            try:
+                call_method(tree, hooks, ds, meth, "zz")
+                res.append("no error")
+            except Raised as e:
+                res.append(e.name)
+        return res == ["KeyError", "KeyError"] and list(ds._attrs["groups"]) == ["a"], "pop(absent) -> %s; del absent -> %s" % tuple(res)
+
+    @case("keys() / items() / values() handed out earlier keep following the dataset (dict views), also across clear()",
+          "k = ds.keys(); ds.clear(); ds['b'] = g; list(k) is empty or shows the old keys (clear() swaps the backing dict)")
+    def c8():
+        ds = new_ds()
+        call_method(tree, hooks, ds, "__setitem__", "a", new_group(tree, hooks))
+        k, it, vs = (call_method(tree, hooks, ds, m) for m in ("keys", "items", "values"))
+        if not all(hasattr(x, "__iter__") and not isinstance(x, (list, tuple)) for x in (k, it, vs)):
+            return True, "keys()/items()/values() return snapshots (no view contract to keep)"
+        call_method(tree, hooks, ds, "clear")
+        g = new_group(tree, hooks)
+        call_method(tree, hooks, ds, "__setitem__", "b", g)
+        got = (list(k), [kk for kk, _ in it], [v is g for v in vs])
+        return got == (["b"], ["b"], [True]), "views taken before clear() show keys %s, items %s, values-are-the-new-group %s" % got
 
     for label, family, fn in cases:
         construct = "%s::history[%s]" % (DS_Q, label)
